@@ -43,7 +43,7 @@ Theorem C17_string_tests_meaning : forall s n,
   (ends_with s n = true <-> exists a, n = a ++ s).
 Proof. intros s n. exact (conj (contains_spec s n) (ends_with_spec s n)). Qed.
 
-(* Any file torch's zip loader accepts (zip magic at offset 0 and a record "<archive>/data.pkl") is
+(* Any file torch's zip loader accepts (zip magic at offset 0, records "<archive>/version" and "<archive>/data.pkl") is
    discovered as is_torch_zip and has_data_pkl, hence reported at least as PyTorch v1.3 -- for every
    name list and all values of the other discovered properties. *)
 Theorem C17_torch_accepts_implies_v13 : forall tz tar pkl std legacy names,
@@ -156,7 +156,8 @@ Proof. vm_compute. repeat split. Qed.
 
 Example C17_torch_accepts_nonvacuous :
   torch_accepts true ["archive/data.pkl"; "archive/version"; "archive/data/0"] = true /\
-  torch_accepts true ["data.pkl"] = false /\ torch_accepts false ["archive/data.pkl"] = false.
+  torch_accepts true ["data.pkl"; "version"] = false /\
+  torch_accepts false ["archive/data.pkl"; "archive/version"] = false.
 Proof. vm_compute. auto. Qed.
 
 (* ---------- observations (reproduced by the model, not alarms) ---------- *)
